@@ -1,1 +1,81 @@
-(* C14 -- theorems to be stated here. *)
+(* C14 -- alternative front-ends to the same mode are interchangeable.
+   PARTIAL.  Proved here: OFB's block encryptor, block decryptor and keystream core are one function;
+   a CTR / BelT core driven block-wise equals the byte-level cipher on whole blocks (any number of
+   blocks, any width); the private CBC/ECB helpers of cts equal the cbc crate's recurrences / raw block
+   encryption (so CS1/CS2 on whole blocks run exactly plain CBC through them); every construction route
+   builds the same model object.  Not proved yet (covered by correspondence and the implementation-side
+   predicates of gen/props/c14.py only): buffered CFB = block CFB = one-shot CFB as theorems about
+   Plumbing.async_inout / buf_apply; the CS3 exchange of the last two blocks on whole-block messages. *)
+From BM Require Import BlockModes Spec BlockModes_proofs Plumbing Toy Ints Ctr Belt Stream Cts Stream_proofs Cts_proofs
+  Interp Interp_proofs Wrapper_proofs Wrapper_inst.
+
+(* OFB: three of the four front-ends at block level *)
+Theorem C14_ofb_frontends : forall (C : cipher) iv c,
+  ofb_enc_block C iv c = ofb_dec_block C iv c /\
+  apply_ks_block (kscore C SOfb) (COfb iv) c = (COfb (fst (ofb_enc_block C iv c)), snd (ofb_enc_block C iv c)).
+Proof. intros C iv c. split; reflexivity. Qed.
+Print Assumptions C14_ofb_frontends.
+
+(* ... and the byte-level Ofb wrapper on whole blocks equals the core (fourth front-end) *)
+Theorem C14_ofb_wrapper_vs_core : forall (C : cipher) iv, cipher_wf C -> length iv = c_bs C ->
+  forall nb wst blocks, OfbInv C iv nb wst -> wr_pos wst = c_bs C -> all_len (c_bs C) blocks ->
+  (N.of_nat (length (concat blocks)) <= usize_max)%N ->
+  let K := kscore C SOfb in
+  exists wst', try_apply K wst true (concat blocks) (concat blocks) =
+               Ok (wst', outs_of (snd (apply_ks_blocks K (ofb_at C iv nb) (cells_ip blocks)))).
+Proof.
+  intros C iv Hw Hiv nb wst blocks HI Hp Hall Hus K.
+  assert (Hb : 0 < sc_bs K) by (destruct Hw as (H & _); exact H).
+  unfold OfbInv in HI.
+  eapply (core_equals_wrapper K Hb (ofb_at C iv) (ofb_KB C iv) None); eauto.
+  all: try (intros p; apply ofb_kb_len; assumption).
+  all: try apply ofb_gen_at. all: try apply ofb_gen_closed. all: try apply ofb_par_at. all: try exact I.
+  all: try (intros pp Hpp; reflexivity).
+  all: try assumption.
+Qed.
+Print Assumptions C14_ofb_wrapper_vs_core.
+
+(* CTR (every flavour): CtrCore driven block-wise = byte-level wrapper on whole blocks *)
+Theorem C14_ctr_core_vs_wrapper : forall cs be (C : cipher) (nonce : list N), cipher_wf C -> c_bs C = cs * length nonce ->
+  forall nb wst blocks, CtrInv cs be C nonce nb wst -> wr_pos wst = c_bs C -> all_len (c_bs C) blocks ->
+  (N.of_nat (length (concat blocks)) <= usize_max)%N ->
+  let K := kscore C (SCtr cs be) in
+  fits K (ctr_limit cs) nb (c_bs C) (length (concat blocks)) ->
+  exists wst', try_apply K wst true (concat blocks) (concat blocks) =
+               Ok (wst', outs_of (snd (apply_ks_blocks K (ctr_at nonce nb) (cells_ip blocks)))).
+Proof.
+  intros cs be C nonce Hw Hbs nb wst blocks HI Hp Hall Hus K Hfit.
+  unfold CtrInv in HI.
+  eapply (core_equals_wrapper K (ctr_bs_pos cs be C Hw) (ctr_at nonce) (ctr_KB cs be C nonce) (ctr_limit cs)); eauto.
+  all: try (intros p; apply ctr_kb_len; assumption).
+  all: try apply ctr_gen_at. all: try apply ctr_gen_closed. all: try apply ctr_par_at. all: try apply ctr_rem_at.
+  all: try assumption.
+
+Qed.
+Print Assumptions C14_ctr_core_vs_wrapper.
+
+(* cts: its private helpers are the cbc crate's CBC and raw block encryption, for every width *)
+Theorem C14_cts_helpers : forall (C : cipher) iv st cs,
+  cts_cbc_enc C iv cs = fold_cells (cbc_enc_block C) iv cs /\
+  cts_cbc_dec C iv cs = fold_cells (cbc_dec_block C) iv cs /\
+  cts_ecb_enc C st cs = (tt, map2 wr_out cs (map (c_E C) (map rd_in cs))) /\
+  cts_ecb_dec C st cs = (tt, map2 wr_out cs (map (c_D C) (map rd_in cs))).
+Proof.
+  intros C iv st cs. split; [reflexivity|]. split; [|split].
+  - rewrite cts_cbc_dec_eq, cbc_dec_fold. reflexivity.
+  - apply cts_ecb_enc_eq.
+  - apply cts_ecb_dec_eq.
+Qed.
+Print Assumptions C14_cts_helpers.
+
+(* constructing from key bytes, from an already keyed cipher, or from slices builds the same object:
+   the route is not even an input of the model's constructor once the lengths are right *)
+Theorem C14_construction_routes : forall bs w dm s rs id k key iv h1 h2,
+  length (get_data rs key) = 8 ->
+  length (get_data rs iv) = (match k with KBlock bk => bm_ivlen (cph bs w dm (get_data rs key)) bk
+                                      | KCts (EcbCs1 | EcbCs2 | EcbCs3) => 0 | _ => bs end) ->
+  step bs w dm s rs (OpNew id k h1 key iv) = step bs w dm s rs (OpNew id k h2 key iv).
+Proof.
+  intros bs w dm s rs id k key iv h1 h2 Hk Hiv. cbn [step]. rewrite Hk, Hiv, !Nat.eqb_refl. reflexivity.
+Qed.
+Print Assumptions C14_construction_routes.
